@@ -1,9 +1,9 @@
 #!/bin/sh
 # maintainer helper: behaviour-preserving refactorings (from sub-agents) -- the
-# checks must stay silent.  usage: tools/try_refac.sh   (walks /tmp/wt3/C*_out/r*)
-WT=/tmp/wt3/verify
+# checks must stay silent.  usage: tools/try_refac.sh   (walks /tmp/wt4/C*_out/r*)
+WT=/tmp/wt4/verify
 [ -d "$WT" ] || git -C /repo worktree add -q --detach "$WT" HEAD
-for d in /tmp/wt3/C*_out/r*; do
+for d in /tmp/wt4/C*_out/r*; do
   [ -f "$d/patch.diff" ] && [ -f "$d/check.py" ] && [ -f "$d/notes.md" ] || continue
   [ -f "$d/.tried" ] && continue
   p=$(basename $(dirname $d)); p=${p%%_out}
@@ -13,13 +13,13 @@ for d in /tmp/wt3/C*_out/r*; do
   suite=$(cd "$WT" && PYTHONPATH="$WT" /venv/bin/python -m pytest -q -p no:cacheprovider --timeout=900 test 2>&1 | tail -1 | cut -c1-30)
   c1=$(cd "$WT" && PYTHONPATH="$WT" timeout 120 /venv/bin/python -W ignore "$d/check.py" >/dev/null 2>&1; echo $?)
   git -C "$WT" checkout -q -- .
-  rm -rf /tmp/wt3/scratch && mkdir -p /tmp/wt3/scratch && cp -r /repo/pymbolic /tmp/wt3/scratch/pymbolic && (cd /tmp/wt3/scratch && patch -p1 -s < "$d/patch.diff")
+  rm -rf /tmp/wt4/scratch && mkdir -p /tmp/wt4/scratch && cp -r /repo/pymbolic /tmp/wt4/scratch/pymbolic && (cd /tmp/wt4/scratch && patch -p1 -s < "$d/patch.diff")
   : > $d/.tried
   res=""
   for q in C01 C02 C03 C04 C05 C06 C07 C08 C09 C10 C11 C12 C13 C14 C15 C16 C17 C19 C20; do
-    out=$(cd /verif && PV_REPO=/tmp/wt3/scratch ./check $q --no-evidence 2>&1); rc=$?
+    out=$(cd /verif && PV_REPO=/tmp/wt4/scratch ./check $q --no-evidence 2>&1); rc=$?
     if [ $rc -ne 0 ]; then res="$res $q=$rc"; echo "## $q rc=$rc" >> $d/.tried; echo "$out" | grep -A2 "VIOLATION\|ANALYSIS-ERROR" | grep -v "^--" | head -9 | cut -c1-300 >> $d/.tried; fi
   done
-  rm -rf /tmp/wt3/scratch
+  rm -rf /tmp/wt4/scratch
   echo "$p/$(basename $d): clean=$c0 patched=$c1 suite[$suite] => ${res:-silent}"
 done
